@@ -162,6 +162,8 @@ def check_obligation(ob, timeout_ms=10000):
     g = z3.simplify(ob.goal)
     if z3.is_true(g):
         return 'discharged', 'simplifier', time.time() - t0, None
+    if any(h.eq(ob.goal) for h in ob.hyps):
+        return 'discharged', 'syntactic (goal is a hypothesis)', time.time() - t0, None
     quant = has_quantifier(ob.goal) or any(has_quantifier(h) for h in ob.hyps)
     # the negated goal is literally one of the hypotheses (or the goal is False): nothing to prove from; the
     # obligation fails on this path unless the path itself is infeasible - decided below with the cheap parts only
